@@ -579,8 +579,13 @@ func (c *connection) waitFlush() (err error) {
 		}
 	}
 	if timeout == 0 {
-		vp(vpWaitWrite, unsafe.Pointer(c), 0, 0)
-		return <-c.writeTrigger
+		for {
+			vp(vpWaitWrite, unsafe.Pointer(c), 0, 0)
+			err = <-c.writeTrigger
+			if !c.staleFlushSignal(err) {
+				return err
+			}
+		}
 	}
 
 	// set write timeout
@@ -590,27 +595,41 @@ func (c *connection) waitFlush() (err error) {
 		c.writeTimer.Reset(timeout)
 	}
 
-	vp(vpWaitWriteT, unsafe.Pointer(c), 0, 0)
-	select {
-	case err = <-c.writeTrigger:
-		if !c.writeTimer.Stop() { // clean timer
-			vp(vpTimerDrainW, unsafe.Pointer(c), 0, 0)
-			<-c.writeTimer.C
-		}
-		return err
-	case <-c.writeTimer.C:
-		vp(vpWaitWriteT2, unsafe.Pointer(c), 0, 0)
+	for {
+		vp(vpWaitWriteT, unsafe.Pointer(c), 0, 0)
 		select {
-		// try fetch writeTrigger if both cases fires
 		case err = <-c.writeTrigger:
+			if c.staleFlushSignal(err) {
+				continue
+			}
+			if !c.writeTimer.Stop() { // clean timer
+				vp(vpTimerDrainW, unsafe.Pointer(c), 0, 0)
+				<-c.writeTimer.C
+			}
 			return err
-		default:
+		case <-c.writeTimer.C:
+			vp(vpWaitWriteT2, unsafe.Pointer(c), 0, 0)
+			select {
+			// try fetch writeTrigger if both cases fires
+			case err = <-c.writeTrigger:
+				if !c.staleFlushSignal(err) {
+					return err
+				}
+			default:
+			}
+			// if timeout, remove write event from poller
+			// we cannot flush it again, since we don't if the poller is still process outputBuffer
+			c.operator.Control(PollRW2R)
+			return Exception(ErrWriteTimeout, c.remoteAddrString())
 		}
-		// if timeout, remove write event from poller
-		// we cannot flush it again, since we don't if the poller is still process outputBuffer
-		c.operator.Control(PollRW2R)
-		return Exception(ErrWriteTimeout, c.remoteAddrString())
 	}
+}
+
+// staleFlushSignal reports whether a nil write signal is a leftover of an earlier flush that timed out:
+// the poller may finish draining that flush's data and signal after the timeout was reported, and the
+// signal then sits in writeTrigger. A flush is complete only when nothing is left in the output buffer.
+func (c *connection) staleFlushSignal(err error) bool {
+	return err == nil && !c.outputBuffer.IsEmpty()
 }
 
 func (c *connection) getState() connState {
